@@ -225,6 +225,9 @@ func NewEngine(l *Loaded, s *Solver) *Engine {
 func (e *Engine) fresh(tag string, srt Sort) *Term {
 	name := "n_" + sanitize(tag)
 	if t, ok := e.nondet[name]; ok {
+		if t.Sort != srt {
+			unsupported("harness tag %q is used for two symbolic inputs of different types", tag)
+		}
 		return t
 	}
 	t := Var(name, srt)
@@ -921,6 +924,19 @@ func (e *Engine) valuesEq(a, b Value) *Term {
 			if x.Atom != nil && y.Atom != nil && x.Pre == y.Pre && x.Suf == y.Suf {
 				return Eq(x.Atom, y.Atom)
 			}
+			// pre+atom+suf against a concrete string: equal iff the string has that shape and the atom is its middle
+			for _, p := range [][2]StringVal{{x, y}, {y, x}} {
+				d, o := p[0], p[1]
+				if d.Atom == nil || (d.Pre == "" && d.Suf == "") {
+					continue
+				}
+				if c, ok := o.Concrete(); ok {
+					if len(c) < len(d.Pre)+len(d.Suf) || !strings.HasPrefix(c, d.Pre) || !strings.HasSuffix(c, d.Suf) {
+						return FalseT
+					}
+					return Eq(d.Atom, ConstInt(int64(e.intern(c[len(d.Pre):len(c)-len(d.Suf)]))))
+				}
+			}
 			return Eq(e.strID(x), e.strID(y))
 		}
 		if len(x.Bytes) != len(y.Bytes) {
@@ -970,7 +986,7 @@ func (e *Engine) valuesEq(a, b Value) *Term {
 		return ConstBool(x.Obj == y.Obj)
 	case FuncVal:
 		y := b.(FuncVal)
-		return ConstBool(x.Fn == nil && y.Fn == nil && x.Builtin == nil && y.Builtin == nil)
+		return ConstBool(x.Fn == nil && y.Fn == nil && x.Builtin == nil && y.Builtin == nil && !x.Noop && !y.Noop)
 	case OpaqueVal:
 		y, ok := b.(OpaqueVal)
 		return ConstBool(ok && x.ID == y.ID)
@@ -1024,6 +1040,12 @@ func (e *Engine) binop(st *State, op token.Token, a, b Value, typ types.Type) Va
 				unsupported("concatenation of two atoms")
 			}
 			return StringVal{Bytes: append(append([]*Term(nil), sa.Bytes...), sb.Bytes...)}
+		case token.LSS, token.GTR, token.LEQ, token.GEQ:
+			if sa.Atom != nil || sb.Atom != nil {
+				unsupported("ordering comparison on an atom (atoms have identity, not content)")
+			}
+		}
+		switch op {
 		case token.LSS:
 			return stringLess(sa, sb)
 		case token.GTR:
@@ -1148,6 +1170,15 @@ func (e *Engine) convert(st *State, v Value, from, to types.Type) Value {
 			bs := make([]*Term, x.Len)
 			if x.Obj != 0 {
 				arr := st.heap[x.Obj].(ArrayVal)
+				for i := 0; i < x.Len; i++ {
+					// bytes of unknown content produced by a library model (regexp ExpandString): the string is that text
+					if ch, isChunk := arr.Elems[x.Off+i].(OpaqueVal); isChunk && ch.Tag == "atomchunk" {
+						if x.Len != 1 {
+							unsupported("[]byte -> string of opaque text mixed with other bytes")
+						}
+						return ch.Data
+					}
+				}
 				for i := 0; i < x.Len; i++ {
 					bs[i] = asTerm(arr.Elems[x.Off+i])
 				}
